@@ -37,6 +37,10 @@
 (* function of (site, epoch) only (ConvertIgnoresHistory); the named        *)
 (* deviation CacheIgnoresEpoch (a memo on the object) is refuted by         *)
 (* SiteFixed, also at the join instant before the first propagation.        *)
+(* The HOST's local time zone is part of the posed environment (zone): as   *)
+(* designed it is irrelevant; the named deviation LocalTimeEpoch (epochs    *)
+(* built through the host's local time) is refuted by SiteEpochAgrees and   *)
+(* SiteFixed for a run that crosses a daylight-saving switch.               *)
 (* Properties: SiteEpochAgrees, StartInversionExact, SiteFixed,            *)
 (* VelIsRotation.                                                          *)
 (***************************************************************************)
@@ -50,13 +54,18 @@ CONSTANTS N,                          \* ticks per revolution
           MaxJoinSteps,               \* the site may join after 0..MaxJoinSteps scenario steps
           PriorAngles,                \* Earth angles at which the site's configuration OBJECT may
                                       \* already have been converted (by an earlier scenario)
+          Zones,                      \* classes of the HOST's local time zone: <<kind, afterSteps, jump>>
+                                      \*   "utc" / "fixed" offset / "dst": a zone with daylight saving whose
+                                      \*   offset changes by `jump` seconds after `afterSteps` steps of the run
           InvertStartBySecTruncation, \* FALSE = as designed
           CaptureAtJoinEpoch,         \* FALSE = as designed
-          CacheIgnoresEpoch           \* FALSE = as designed
+          CacheIgnoresEpoch,          \* FALSE = as designed
+          LocalTimeEpoch              \* FALSE = as designed
 
 VARIABLES pc, lon, theta0, startSec, dt, plan, invErr, clockSec, k, siteEpoch, inertial, vel, join, siteLon,
-          first       \* the configuration object: Earth angle of its first conversion, -1 = never converted
-vars == <<pc, lon, theta0, startSec, dt, plan, invErr, clockSec, k, siteEpoch, inertial, vel, join, siteLon, first>>
+          first,      \* the configuration object: Earth angle of its first conversion, -1 = never converted
+          zone        \* the host's time zone class (part of the environment the run is posed in)
+vars == <<pc, lon, theta0, startSec, dt, plan, invErr, clockSec, k, siteEpoch, inertial, vel, join, siteLon, first, zone>>
 
 Theta(t)      == (theta0 + t) % N                \* Earth angle at scenario second t
 \* ecef2eci(x_ecef, start + e), position angle; x_ecef is what the dynamics captured (siteLon)
@@ -70,27 +79,34 @@ ReportedVelLon == (vel - Theta(clockSec)) % N
 \* epoch only; the named deviation CacheIgnoresEpoch = TRUE hands back the first conversion's
 \* result (a memo on the object that ignores the epoch).
 Convert(f, angle) == IF CacheIgnoresEpoch /\ f # -1 THEN (lon + f) % N ELSE (lon + angle) % N
+\* Epochs are UTC; as DESIGNED the host's zone has no influence.  The named deviation
+\* LocalTimeEpoch = TRUE builds a step's epoch through the host's LOCAL time (naive
+\* datetime.timestamp() / fromtimestamp()): once the run's wall-clock values have passed a switch
+\* of a daylight-saving zone the epoch is off by the change of the zone's offset.
+UtcZone == <<"utc", 0, 0>>
+ZoneShift(steps) == IF LocalTimeEpoch /\ zone[1] = "dst" /\ steps > zone[2] THEN zone[3] ELSE 0
 InvErrs == IF InvertStartBySecTruncation /\ startSec # 0 THEN {0, -1} ELSE {0}
 
 Init == /\ pc = "start" /\ lon = 0 /\ theta0 = 0 /\ startSec = 0 /\ dt = 0 /\ plan = <<>> /\ invErr = 0
         /\ clockSec = 0 /\ k = 0 /\ siteEpoch = 0 /\ inertial = 0 /\ vel = Quarter
-        /\ join = 0 /\ siteLon = 0 /\ first = -1
+        /\ join = 0 /\ siteLon = 0 /\ first = -1 /\ zone = UtcZone
 
 \* (the configuration object is fresh, or an earlier scenario with another start instant was
 \*  built from it: its state was converted at that scenario's start angle)
 PoseSite  == /\ pc = "start" /\ \E g \in Lons, t \in Theta0s : lon' = g /\ theta0' = t
              /\ \E f \in PriorAngles \cup {-1} : first' = f
+             /\ \E z \in Zones : zone' = z
              /\ pc' = "site"
              /\ UNCHANGED <<startSec, dt, plan, invErr, clockSec, k, siteEpoch, inertial, vel, join, siteLon>>
 PoseStart == /\ pc = "site"
              /\ \E s \in StartSecs, st \in Dts, p \in Plans : startSec' = s /\ dt' = st /\ plan' = p
              /\ pc' = "posed"
-             /\ UNCHANGED <<lon, theta0, invErr, clockSec, k, siteEpoch, inertial, vel, join, siteLon, first>>
+             /\ UNCHANGED <<lon, theta0, invErr, clockSec, k, siteEpoch, inertial, vel, join, siteLon, first, zone>>
 \* the scenario steps before the site exists (a sensor added mid-run: Scenario.addSensor or a
 \* sensor-addition event): only the clock advances
 Wait == /\ pc = "posed" /\ join < MaxJoinSteps /\ dt > 0
         /\ clockSec' = clockSec + dt /\ join' = join + 1
-        /\ UNCHANGED <<pc, lon, theta0, startSec, dt, plan, invErr, k, siteEpoch, inertial, vel, siteLon, first>>
+        /\ UNCHANGED <<pc, lon, theta0, startSec, dt, plan, invErr, k, siteEpoch, inertial, vel, siteLon, first, zone>>
 \* ScenarioBuilder / Scenario.addSensor at scenario second clockSec (0 unless the site joins late):
 \*  - dynamicsFactory: the dynamics recovers the start datetime from the start Julian date and
 \*    captures the site's Earth-fixed position, as DESIGNED from the configuration at the start
@@ -110,15 +126,15 @@ Build == /\ pc = "posed" /\ \E e \in InvErrs : invErr' = e
                /\ first' = f1
          /\ siteEpoch' = clockSec
          /\ pc' = "run"
-         /\ UNCHANGED <<lon, theta0, startSec, dt, plan, clockSec, k, join>>
+         /\ UNCHANGED <<lon, theta0, startSec, dt, plan, clockSec, k, join, zone>>
 \* one propagation of d seconds: the clock advances; Terrestrial.propagate evaluates the
 \* Earth-fixed position at its own idea of "start + final_time"
 Advance(d) == /\ d > 0
               /\ clockSec' = clockSec + d /\ k' = k + 1
-              /\ siteEpoch' = invErr + clockSec + d
-              /\ inertial' = Inertial(invErr + clockSec + d)
-              /\ vel' = (Inertial(invErr + clockSec + d) + Quarter) % N
-              /\ UNCHANGED <<pc, lon, theta0, startSec, dt, plan, invErr, join, siteLon, first>>
+              /\ siteEpoch' = invErr + clockSec + d + ZoneShift(k + 1)
+              /\ inertial' = Inertial(invErr + clockSec + d + ZoneShift(k + 1))
+              /\ vel' = (Inertial(invErr + clockSec + d + ZoneShift(k + 1)) + Quarter) % N
+              /\ UNCHANGED <<pc, lon, theta0, startSec, dt, plan, invErr, join, siteLon, first, zone>>
 \* a scenario: every step is the configured physics step
 Step     == pc = "run" /\ plan = <<>> /\ k < MaxSteps /\ Advance(dt)
 \* the agent stepped directly with a plan of step sizes: a long first step (an elapsed time of
@@ -144,7 +160,7 @@ VelIsRotation       == pc = "run" => ReportedVelLon = (lon + Quarter) % N
 Emit == (pc = "run" /\ ((plan = <<>> /\ k = MaxSteps) \/ (plan # <<>> /\ k = Len(plan)))) =>
    PrintT("SITE " \o ToJson([startSec |-> startSec, dt |-> dt, steps |-> k, lon |-> lon, theta0 |-> theta0,
                              plan |-> plan, elapsed |-> clockSec, join |-> join,
-                             reused |-> IF first = theta0 THEN 0 ELSE 1]))
+                             reused |-> IF first = theta0 THEN 0 ELSE 1, zone |-> zone]))
 
 Secs60      == 0..59
 DtsQuick    == {2, 7, 30, 60, 120, 300, 600, 900}
@@ -164,4 +180,9 @@ LonsAll     == {0, 1, 21600, 43200, 64800, 86399}
 ThetasAll   == {0, 12345, 86399}
 OnePrior    == {22663}            \* 6 h 17 min 43 s of Earth rotation away from angle 0
 NoPrior     == {}
+\* host zones: UTC; a fixed offset; daylight-saving zones whose switch (spring forward +3600 s /
+\* fall back -3600 s) falls after the 1st / 2nd step of the run, or outside the run
+ZonesUtc    == {UtcZone}
+ZonesAll    == {UtcZone, <<"fixed", 0, 0>>, <<"dst", 1, 3600>>, <<"dst", 2, -3600>>, <<"dst", 99, 3600>>}
+DtsZones    == {60, 900}
 =============================================================================
